@@ -1,5 +1,5 @@
 import re
-from ast import Attribute, Subscript, Load, NodeVisitor
+from ast import Attribute, Subscript, Load, NodeVisitor, walk
 
 from .compat import PY2
 from .scope import (FuncScope, Flow, SourceScope, ClassScope, CompScope,
@@ -126,6 +126,22 @@ class extract_visitor(NodeVisitor):
         body = self.visit_in_flow(node.body, self.make_flow('if', [cur]))
         orelse = self.visit_in_flow(node.orelse, self.make_flow('else', [cur]))
         self.flow = self.make_flow('join', [body, orelse])
+        self.flow.scope.flow = self.flow
+
+    def visit_BoolOp(self, node):
+        # type: (ast.BoolOp) -> None
+        # 'a and (m := f())': the operands after the first one run only if
+        # the ones before let them; what they bind is bound on some paths
+        self.visit(node.values[0])
+        rest = node.values[1:]
+        if not any(type(n).__name__ == 'NamedExpr' for v in rest for n in walk(v)):
+            for v in rest:
+                self.visit(v)
+            return
+        ends = [self.flow]
+        for v in rest:
+            ends.append(self.visit_in_flow(v, self.make_flow('boolop', [ends[-1]])))
+        self.flow = self.make_flow('join', ends)
         self.flow.scope.flow = self.flow
 
     def visit_IfExp(self, node):
